@@ -391,6 +391,23 @@ def stream_update(chk, i, rng):
                  dict(replay, lr=lr_post), layer="L3")
     if not untouched:
         chk.fail("update:other-weights", "_update_weights changed parameters other than the penalised matrices after the optimiser step", replay, layer="L3")
+    # ---- L3: what the threshold means, independently of the library operator: a group whose stepped norm (plus, for the
+    # sparse MLP, M x the l1 mass of its first-layer rows) is below alpha x rate is zeroed exactly; one whose stepped skip
+    # norm is above it survives
+    for g in (gs if gs is not None else [[j] for j in range(case["d"])]):
+        g = [int(j) for j in g]
+        if not g:
+            continue
+        if is_mlp:
+            nv, slack, res = float(np.linalg.norm(sV[g])), float(est.M) * float(np.abs(sW1[g]).sum()), est.W_skip_[g]
+        else:
+            nv, slack, res = float(np.linalg.norm(sW[g])), 0.0, est.W_[g]
+        if not np.isfinite(nv + slack) or np.isnan(res).any():
+            continue
+        if nv + slack < thr * (1 - 1e-9) and np.any(res != 0):
+            chk.fail("update:threshold-semantics", f"group {g}: stepped norm {nv} (+{slack}) is below alpha*rate={thr} but the group was not zeroed", dict(replay, group=g, lr=lr_post), layer="L3")
+        if nv > thr * (1 + 1e-9) and nv > 1e-100 and not np.any(res != 0):
+            chk.fail("update:threshold-semantics", f"group {g}: stepped norm {nv} is above alpha*rate={thr} but the group was zeroed", dict(replay, group=g, lr=lr_post), layer="L3")
     # ---- L2: the model's composition (operator chosen, threshold, matrices handed over, result, selection)
     if is_mlp:
         t = chk.ask(f"c06.update_mlp {hx(alpha)} {hx(est.M)} {hx(lr_post)} {enc_ogroups(jgroups(gs))} {enc_mat(sV)} {enc_mat(sW1)} {enc_mat(eV)} {enc_mat(eU)}")
